@@ -883,7 +883,16 @@ func dedup(s []string) []string {
 func seqDiff(a, b []string) string {
 	for i := 0; i < len(a) && i < len(b); i++ {
 		if a[i] != b[i] {
-			return fmt.Sprintf("item %d: %s vs %s", i, clipS(a[i]), clipS(b[i]))
+			k := 0 // show both items from just before the first differing byte
+			for k < len(a[i]) && k < len(b[i]) && a[i][k] == b[i][k] {
+				k++
+			}
+			if k > 30 {
+				k -= 30
+			} else {
+				k = 0
+			}
+			return fmt.Sprintf("item %d at offset %d: …%s vs …%s", i, k, clipS(a[i][k:]), clipS(b[i][k:]))
 		}
 	}
 	if len(a) != len(b) {
